@@ -113,20 +113,55 @@ PREDICATES = {"p_is1": p_is1, "p_falsy": p_falsy, "p_pos": p_pos, "p_len": p_len
 _ABSENT = object()
 
 
+def path_of(dotted):
+    """Key path written as a dotted string; the empty string is the empty path (the whole context)."""
+    return dotted.split(".") if dotted else []
+
+
 def sc_key(notation, dotted):
-    """The SelectContext key object for a dotted path in one of the three documented notations:
-    dotted string, list of components, one-key-per-level dictionary ({"a": "b"} means a.b)."""
-    parts = dotted.split(".")
+    """The SelectContext key object for a dotted path in one of the documented notations: dotted
+    string, list of components, one-key-per-level dictionary - {"a": "b"} ("dict", what str_to_dict
+    builds) or {"a": {"b": {}}} ("dict0", 'at most one key at each level') both mean a.b.
+    The empty path (the context itself, 'if keys is empty, d is returned') is "", [] or {}."""
+    parts = path_of(dotted)
     if notation == "str":
         return dotted
     if notation == "list":
         return parts
     if notation == "dict":
+        if not parts:
+            return {}
         key = parts[-1]
         for k in reversed(parts[:-1]):
             key = {k: key}
         return key
+    if notation == "dict0":
+        key = {}
+        for k in reversed(parts):
+            key = {k: key}
+        return key
     raise ValueError(notation)
+
+
+def sc_notations(dotted):
+    """The notations in which *dotted* can be written as distinct key objects."""
+    n = len(path_of(dotted))
+    if n == 0:
+        return ["str", "list", "dict"]          # "", [], {}
+    if n == 1:
+        return ["str", "list", "dict0"]         # the "dict" form of one key is the string itself
+    return ["str", "list", "dict", "dict0"]
+
+
+def descent(ctx, path):
+    """Number of leading components of *path* that are keys of the nested dictionaries of *ctx*."""
+    cur, n = ctx, 0
+    for k in path:
+        if not isinstance(cur, dict) or k not in cur:
+            break
+        cur = cur[k]
+        n += 1
+    return n
 
 
 def lookup(ctx, path):
@@ -156,7 +191,7 @@ def leaf_outcome(spec, value):
     if kind == "f":
         return _call(CALLABLES[spec[1]], value)
     if kind == "sc":
-        sub = lookup(ctx, spec[2].split("."))
+        sub = lookup(ctx, path_of(spec[2]))
         if sub is _ABSENT:
             return ("ok", False)
         return _call(PREDICATES[spec[3]], sub)
